@@ -221,6 +221,12 @@ def fn_programs() -> list:
         TUPLE(["pa", "pb", "pc"], [I(20), CALL("peek"), CALL("peek")]), WRITE(V("pa")), WRITE(V("pb")), WRITE(V("pc"))])
     add("fn_tuple_in_fn", {"peek": DEF([], [RETURN(V("ga"))]), "step": DEF([], [TUPLE(["ga", "gb"], [BIN("+", V("ga"), I(1)), CALL("peek")]), RETURN(V("gb"))], ["ga", "gb"])},
         [ASSIGN("ga", I(5)), ASSIGN("gb", I(0)), WRITE(CALL("step")), WRITE(CALL("step")), WRITE(V("ga"))])
+    # names a helper declares `global` that the MAIN LOOP (not the prologue) binds first: they are the helper's globals, not loop locals
+    add("fn_global_bound_in_loop", {"inc": DEF([], [AUG("gn", "+", I(1))], ["gn"])}, [], loop=[ASSIGN("gn", I(5)), EXPR(CALL("inc")), EXPR(CALL("inc")), WRITE(V("gn"))], npass=2)
+    add("fn_global_swap_bound_in_loop", {"swp": DEF([], [TUPLE(["ga", "gb"], [V("gb"), V("ga")])], ["ga", "gb"])}, [],
+        loop=[ASSIGN("ga", I(1)), ASSIGN("gb", I(2)), EXPR(CALL("swp")), WRITE(V("ga")), WRITE(V("gb"))], npass=2)
+    add("fn_global_tuple_bound_in_loop", {"inc": DEF([], [AUG("gp", "+", V("gq"))], ["gp", "gq"])}, [],
+        loop=[TUPLE(["gp", "gq"], [I(1), I(10)]), EXPR(CALL("inc")), WRITE(V("gp"))], npass=2)
     # n-ary min / max mixing a float with several ints (the result type and every intermediate must hold the float)
     add("fn_nary_minmax", {"cap": DEF(["v"], [RETURN(CALL("min", V("v"), I(100), I(255)))])},
         [ASSIGN("smp", BIN("*", AREAD(), F(0.5))), WRITE(CALL("max", V("smp"), I(1), I(2))), WRITE(CALL("min", F(0.5), AREAD(), I(7))),
